@@ -73,7 +73,7 @@ for name, src in mods:
     else:
         exts.append(Extension(name, sources=[src], extra_compile_args=["-w"]))
 setup(name="mwlibext", version="0", script_args=["build_ext", "--build-lib", "out", "--build-temp", "tmp", "-j", "5"],
-      ext_modules=cythonize(exts, compiler_directives={"language_level": 3, "boundscheck": False, "wraparound": False}, quiet=True))
+      ext_modules=cythonize(exts, compiler_directives={"language_level": 3}, quiet=True))
 """
 
 
